@@ -325,26 +325,33 @@ __in_range_p(struct dt_dt_s now, const struct dseq_clo_s *clo)
 			return dt_dt_in_range_p(now, clo->lst, clo->fst) == 1;
 		}
 	}
-	/* otherwise perform a simple range check */
+	/* otherwise perform a simple range check,
+	 * the number of midnights passed has kindly been stored in d.u */
 	if (clo->dir > 0) {
+		const int32_t c = (int32_t)now.d.u;
+
 		if (clo->fst.t.u < clo->lst.t.u) {
 			/* dseq A B  with A < B */
-			return now.t.u >= clo->fst.t.u &&
+			return c == 0 &&
+				now.t.u >= clo->fst.t.u &&
 				now.t.u <= clo->lst.t.u;
 		} else {
-			/* dseq A B  with A > B and wrap-around,
-			 * carries have kindly been stored in d.u */
-			return now.t.u <= clo->lst.t.u || now.d.u == 0U;
+			/* dseq A B  with A >= B and wrap-around */
+			return (c == 0 && now.t.u >= clo->fst.t.u) ||
+				(c == 1 && now.t.u <= clo->lst.t.u);
 		}
 	} else if (clo->dir < 0) {
+		const int32_t c = (int32_t)now.d.u;
+
 		if (clo->fst.t.u > clo->lst.t.u) {
 			/* counting down from A to B */
-			return now.t.u <= clo->fst.t.u &&
+			return c == 0 &&
+				now.t.u <= clo->fst.t.u &&
 				now.t.u >= clo->lst.t.u;
 		} else {
-			/* count down from A to B with wrap around,
-			 * carries have kindly been stored in d.u */
-			return now.t.u >= clo->lst.t.u || now.d.u == 0U;
+			/* count down from A to B with wrap around */
+			return (c == 0 && now.t.u <= clo->fst.t.u) ||
+				(c == -1 && now.t.u >= clo->lst.t.u);
 		}
 	}
 	return false;
@@ -417,6 +424,12 @@ __fixup_fst(struct dseq_clo_s *clo)
 
 	/* assume clo->dir has been computed already */
 	old = tmp = clo->lst;
+	if (dt_sandwich_only_t_p(tmp) &&
+	    ((clo->dir > 0 && clo->fst.t.u >= clo->lst.t.u) ||
+	     (clo->dir < 0 && clo->fst.t.u <= clo->lst.t.u))) {
+		/* wrap-around, LAST is one midnight away from FIRST */
+		old.d.u = tmp.d.u = (uint32_t)clo->dir;
+	}
 	date_neg_dur(clo->ite, clo->nite);
 	while (__in_range_p(tmp, clo)) {
 		old = tmp;
